@@ -85,7 +85,7 @@ _PREC_LOGICAL_OR = 80
 _PREC_LOGICAL_AND = 90
 
 _PREC_BITWISE_OR = 120
-_PREC_BITWISE_XOR = 120
+_PREC_BITWISE_XOR = 125
 _PREC_BITWISE_AND = 130
 
 _PREC_COMPARISON = 200
